@@ -80,7 +80,7 @@ def summarize(r: Result) -> Path:
             else:
                 g2[g] = None
         states[role] = g2
-    return Path(r.path, list(r.assumptions), r.outputs, events, raised, prims, states, dict(r.world.env.n1))
+    return Path(r.final_path, list(r.final_assumptions), r.outputs, events, raised, prims, states, dict(r.world.env.n1))
 
 
 def check_config(prog: Program, cfg: Config, compare=True) -> Checked:
